@@ -1,23 +1,34 @@
 #!/bin/bash
-# usage: tools/fp_check.sh [dir...]   — false-alarm regression: applies every behaviour-preserving
+# usage: tools/fp_check.sh [-j N] [dir...]   — false-alarm regression: applies every behaviour-preserving
 # refactoring kept under /verif/refactors/<tag>/refactorN.diff to a scratch copy of /repo's tree and
-# runs ALL registered quick checks on it (8 in parallel); any check that exits non-zero is a false
-# alarm. Prints one line per diff (+ the alarming checks); exit 1 if there is any alarm.
+# runs the quick rules of ALL registered properties on it (`verifsa scan`: one load of the tree per
+# diff, N diffs in parallel); any property that is not quiet is a false alarm. Prints one line per
+# diff (+ the alarming properties); exit 1 if there is any alarm.
 cd "$(dirname "$0")/.."
 V="$(pwd)"
+J=4
+if [ "${1:-}" = "-j" ]; then J="$2"; shift 2; fi
 ./check.sh build >/dev/null
-ALL=$(jq -r '.checks[].property_id' MANIFEST.json)
-rc=0
-for d in ${@:-refactors/*}; do
-  for f in $d/refactor*.diff; do
-    S="${VERIF_SCRATCH:-/var/tmp}/fpcheck.$$"
-    rm -rf "$S"; mkdir -p "$S/repo" "$S/verif"
-    rsync -a --exclude .git --exclude .tmp /repo/ "$S/repo/"
-    cp known_findings.json "$S/verif/"
-    if ! (cd "$S/repo" && patch -p1 --no-backup-if-mismatch -s < "$V/$f" >/dev/null 2>&1); then echo "STALE  $f"; rm -rf "$S"; continue; fi
-    alarms=$(echo "$ALL" | xargs -P 8 -I{} sh -c "VERIF_REPO=$S/repo VERIF_DIR=$S/verif $V/bin/verifsa check {} quick > $S/{}.out 2>&1; c=\$?; if [ \$c -ne 0 ]; then echo \"{} exit=\$c: \$(grep -E '^  (VIOLATION|UNDECIDED)' $S/{}.out | head -2 | cut -c1-220 | tr '\n' ' ')\"; fi")
-    if [ -n "$alarms" ]; then echo "ALARM  $f"; echo "$alarms" | sed 's/^/    /'; rc=1; else echo "quiet  $f"; fi
-    rm -rf "$S"
-  done
-done
+ALL=$(jq -r '.checks[].property_id' MANIFEST.json | tr '\n' ' ')
+ROOT="${VERIF_SCRATCH:-/var/tmp}/fpcheck.$$"
+mkdir -p "$ROOT"
+one() {
+  f="$1"; tag=$(echo "$f" | tr '/.' '__')
+  S="$ROOT/$tag"
+  mkdir -p "$S/repo" "$S/verif"
+  rsync -a --exclude .git --exclude .tmp /repo/ "$S/repo/"
+  cp "$V/known_findings.json" "$S/verif/"
+  if ! (cd "$S/repo" && patch -p1 --no-backup-if-mismatch -s < "$V/$f" >/dev/null 2>&1); then echo "STALE  $f"; rm -rf "$S"; return; fi
+  out=$(VERIF_REPO="$S/repo" VERIF_DIR="$S/verif" "$V/bin/verifsa" scan $ALL 2>&1)
+  if echo "$out" | grep -qE ' (ALARM|ERROR)'; then
+    echo "ALARM  $f"; echo "$out" | grep -vE ' quiet$' | cut -c1-300 | sed 's/^/    /'
+  else
+    n=$(echo "$out" | grep -c ' quiet$'); echo "quiet  $f ($n properties)"
+  fi
+  rm -rf "$S"
+}
+export -f one; export V ROOT ALL
+ls ${@:-refactors/*}/refactor*.diff | xargs -P "$J" -I{} bash -c 'one {}' | tee "$ROOT.out"
+rc=0; grep -q '^ALARM' "$ROOT.out" && rc=1
+rm -rf "$ROOT" "$ROOT.out"
 exit $rc
